@@ -101,7 +101,7 @@ func main() {
 		"a sticky fault clears once the asynchronous error callback fired twice",
 		"fault placements beyond the deviation bound are not explored",
 	}
-	names := []string{"safe3", "safe3/sticky", "merge4", "merge4/sticky", "merge4/settle", "merge-late/settle", "unsafe3upd-cf/conc", "unsafe2x1cb-cf/conc", "safe2x2/conc", "safe3keep2", "safe3/open", "merge4/open"}
+	names := []string{"safe3", "safe3/sticky", "merge4", "merge4/sticky", "merge4/settle", "merge-late/settle", "unsafe3upd-cf/conc", "unsafe2x1cb-cf/conc", "safe2x2/conc", "safe3keep2", "safe3/open", "merge4/open", "safe3keep2/open"}
 	if c.Thorough() {
 		names = append(names, "unsafe4merge/conc", "unsafe3del-cf/conc", "safe2x1-cf/conc")
 	}
